@@ -112,7 +112,34 @@ class _Canon(ast.NodeTransformer):
             return ast.copy_location({"dict": ast.Dict(keys=[], values=[]), "list": ast.List(elts=[], ctx=ast.Load()), "tuple": ast.Tuple(elts=[], ctx=ast.Load())}[node.func.id], node)
         if _u(node.func) in self.SEQ_FUNCS and node.args and isinstance(node.args[0], ast.List):
             node.args[0] = ast.Tuple(elts=node.args[0].elts, ctx=ast.Load())
+        fn = _u(node.func)
+        # element-wise functions that are symmetric in their two operands: one operand order
+        if fn in self.SYMMETRIC and len(node.args) == 2 and not node.keywords and not any(isinstance(a, ast.Starred) for a in node.args):
+            if ast.dump(node.args[0]) > ast.dump(node.args[1]):
+                node.args = [node.args[1], node.args[0]]
+        # np.where(~m, a, b) == np.where(m, b, a); np.where(x != y, a, b) == np.where(x == y, b, a)
+        if fn == "np.where" and len(node.args) == 3 and not node.keywords:
+            c = node.args[0]
+            inner, wrap = c, None
+            if isinstance(c, ast.Subscript) and self._is_newaxis(c.slice):
+                inner, wrap = c.value, c
+            flipped = None
+            if isinstance(inner, ast.UnaryOp) and isinstance(inner.op, ast.Invert):
+                flipped = inner.operand
+            elif isinstance(inner, ast.Compare) and len(inner.ops) == 1 and isinstance(inner.ops[0], ast.NotEq):
+                flipped = ast.Compare(left=inner.left, ops=[ast.Eq()], comparators=inner.comparators)
+            if flipped is not None:
+                cond = flipped if wrap is None else ast.Subscript(value=flipped, slice=wrap.slice, ctx=ast.Load())
+                node.args = [cond, node.args[2], node.args[1]]
         return node
+
+    SYMMETRIC = {"np.maximum", "np.minimum", "np.logical_and", "np.logical_or", "np.logical_xor", "np.bitwise_and", "np.bitwise_or", "np.add", "np.multiply",
+                 "np.equal", "np.not_equal", "np.fmax", "np.fmin"}
+
+    @staticmethod
+    def _is_newaxis(sl) -> bool:
+        t = _u(sl)
+        return t in ("(:, None)", "(:, np.newaxis)", ":, None", ":, np.newaxis", "(..., None)", "(..., np.newaxis)")
 
     @staticmethod
     def _nonempty(x):
